@@ -51,6 +51,9 @@ type wOp struct {
 	Mode   int    `json:"m,omitempty"` // 1 persist+stream 2 persist only 3 stream only
 	ErrUn  bool   `json:"e,omitempty"`
 	N      int    `json:"n,omitempty"`
+	// Single (set only): the request lists the groups' channels but carries ONE authority,
+	// which applies to the listed channels only (third form of SetAuthority)
+	Single bool `json:"s,omitempty"`
 }
 
 func (o wOp) String() string {
@@ -128,6 +131,13 @@ func genWCase(r *prng.R) wCase {
 				op.Groups = pickGroups(r, w[i].groups)
 				for range op.Groups {
 					op.Auths = append(op.Auths, int(prng.Pick(r, pal)))
+				}
+				if r.Chance(1, 3) {
+					// a channel list with a single authority
+					op.Single = true
+					for gi := range op.Auths {
+						op.Auths[gi] = op.Auths[0]
+					}
 				}
 			}
 			c.Ops = append(c.Ops, op)
@@ -377,7 +387,9 @@ func (ex *wExec) step(op wOp) (string, string) {
 					}
 					for _, k := range wGroups[g] {
 						cfg.Channels = append(cfg.Channels, k)
-						cfg.Authorities = append(cfg.Authorities, xcontrol.Authority(op.Auths[gi]))
+						if !op.Single || len(cfg.Authorities) == 0 {
+							cfg.Authorities = append(cfg.Authorities, xcontrol.Authority(op.Auths[gi]))
+						}
 					}
 				}
 			}
